@@ -13,7 +13,7 @@ ASSUMPTIONS = ["|lower|/side <= 1e6: rounding of the affine map stays below 4e-6
 
 def cases(tier, seed):
     out = []
-    reps = 4 if tier == "quick" else 40
+    reps = 4 if tier == "quick" else 160
     idx = 0
     for N in (2, 3, 4, 5):
         for m in range(2, 13):
@@ -29,7 +29,7 @@ def cases(tier, seed):
                             "params_how": ["ctor", "assign", "positional", "assign"][(rep + m) % 4],
                             "m_type": ["int", "np.int64", "int", "np.int32", "int", "np.intp", "np.uint8"][(rep * 3 + m + N) % 7]})
     # one SolverParameters object reused for a sweep over densities: the user changes p.evolventDensity between Solvers
-    nsw = 12 if tier == "quick" else 120
+    nsw = 12 if tier == "quick" else 600
     for i in range(nsw):
         rng = scenario.rng_for(seed, "C20S", i)
         N = int(rng.integers(2, 6))
